@@ -50,17 +50,38 @@ type operands struct {
 func (in inst) build(rc *rec) operands {
 	var o operands
 	t := in.t
+	ascale, bscale := rc.Scale, 0
+	if rc.Kind == "ratio" {
+		ascale, bscale = rc.Ascale, rc.Bscale
+	}
+	if rc.Kind == "view" {
+		// both operands are views of ONE base matrix (rc.A)
+		base := t.buildS("d", rc.A.Rows, rc.A.Cols, rc.A.C, nil, rc.A.Reps["d"], false, 0).mat
+		v1, v2 := applyView(base, rc.V1), applyView(base, rc.V2)
+		if rc.Op == "Equals" {
+			o.r, o.a = cont{mat: v1}, cont{mat: v2}
+		} else {
+			o.r = t.build(rc.R.K, rc.R.Rows, rc.R.Cols, rc.R.C, rc.R.St, false)
+			o.a, o.b = cont{mat: v1}, cont{mat: v2}
+		}
+		o.s = t.elem(0, 0)
+		return o
+	}
 	if rc.R.K != "-" && rc.Op != "As" && rc.Op != "New" {
 		constRecv := in.constOp && rc.Op == "Equals"
 		o.r = t.buildS(rc.R.K, rc.R.Rows, rc.R.Cols, rc.R.C, nil, rc.R.St, constRecv, rc.Scale)
 	}
 	if in.ak != "-" {
-		o.a = t.buildS(in.ak, rc.A.Rows, rc.A.Cols, rc.A.C, rc.A.F, rc.A.Reps[in.ak], in.constOp, rc.Scale)
+		o.a = t.buildS(in.ak, rc.A.Rows, rc.A.Cols, rc.A.C, rc.A.F, rc.A.Reps[in.ak], in.constOp, ascale)
 	}
 	if in.bk != "-" {
-		o.b = t.buildX(in.bk, rc.B.Rows, rc.B.Cols, rc.B.C, rc.B.F, rc.B.Reps[in.bk], in.constOp)
+		o.b = t.buildS(in.bk, rc.B.Rows, rc.B.Cols, rc.B.C, rc.B.F, rc.B.Reps[in.bk], in.constOp, bscale)
 	}
-	o.s = t.elemX(rc.S[0], rc.S[1], rc.Sf)
+	if bscale != 0 {
+		o.s = NewScalar(t.st, math.Ldexp(float64(rc.S[0]), bscale))
+	} else {
+		o.s = t.elemX(rc.S[0], rc.S[1], rc.Sf)
+	}
 	return o
 }
 
@@ -364,7 +385,7 @@ func judge(t *elemType, rc *rec, out outcome) (string, int) {
 	}
 	switch rc.Exp.T {
 	case "c":
-		return compareContent(t, rc.Exp.C, out.content, intDiv)
+		return compareContentS(t, rc.Exp.C, out.content, intDiv, rc.Ascale-rc.Bscale)
 	case "b":
 		if out.boolRet != rc.Exp.B {
 			return "result", -1
@@ -578,8 +599,8 @@ func containerCase(rc *rec, line []byte, mode string, flt *only, out *vh.Out, st
 		if rc.Sp == "fs" && t.class == "int" {
 			continue // Inf, NaN and -0 exist in the floating point and magic element types only
 		}
-		if rc.Scale != 0 && t.class == "int" {
-			continue // fractions of epsilon exist in the floating point and magic element types only
+		if !fits(t, rc) {
+			continue // the element type cannot hold the values of the record exactly
 		}
 		if rc.Op == "Ctor" && strings.Contains(rc.Ctor, "Magic") && t.class != "real" {
 			continue // the Magic constructors exist for the magic element types only
@@ -653,6 +674,9 @@ func containerCase(rc *rec, line []byte, mode string, flt *only, out *vh.Out, st
 	st.byOp[rc.Op] += ncase
 	if rc.Epsu != 0 {
 		st.byOp["Equals:eps"] += ncase
+	}
+	if rc.Kind != "" {
+		st.byOp[rc.Kind+":"+rc.Op] += ncase
 	}
 	if rc.Op == "Ctor" {
 		st.byOp["Ctor:"+rc.Ctor] += ncase
